@@ -212,6 +212,11 @@ impl Prog {
         Prog { body, n_saves }
     }
 
+    #[cfg(fancy_regex_verif)]
+    pub(crate) fn n_saves(&self) -> usize {
+        self.n_saves
+    }
+
     #[doc(hidden)]
     pub(crate) fn debug_print(&self, writer: &mut Formatter<'_>) -> core::fmt::Result {
         for (i, insn) in self.body.iter().enumerate() {
